@@ -842,3 +842,83 @@ def c01_cases(rng, tier):
             cases.append(case)
             oracles.append("o_ref " + expect_tok("invalid") + " " + case)
     return cases, oracles
+
+
+# ---------------------------------------------------------------------------------------
+# C02: the same result under every pool size / schedule
+
+def spin(k):
+    """k iterations of trivial work"""
+    return [P(k), P(1), op("REP"), P(0), op("POP"), op("REPE")] if k > 0 else []
+
+
+def c02_check_cases(rng, tier):
+    """two-pass cases with wide levels and many solutions whose tasks take very different times"""
+    out = []
+    n_cases = 24 if tier == "quick" else 300
+    for ci in range(n_cases):
+        n_sols = rng.choice([1, 2, 3, 5, 8])
+        sols, preds, pbytes = [], [], []
+        for si in range(n_sols):
+            width = rng.choice([2, 3, 4, 6, 8])
+            shape = rng.choice(["leaves", "join"])
+            # the slow tasks sit at the low indices: with results taken in arrival order they would come last
+            speeds = sorted([rng.choice([0, 0, 50, 2000, 12000]) for _ in range(width)], reverse=rng.random() < 0.7)
+            programs, children = [], []
+            if shape == "leaves":
+                for v in range(width):
+                    r = rng.random()
+                    tail = (p_fail() if r < 0.25 else p_unsat() if r < 0.4 else p_output_mutation([100 * si + v], [v, si]) if r < 0.7 else p_sat())
+                    programs.append(spin(speeds[v]) + tail)
+                    children.append([])
+            else:
+                for v in range(width):
+                    programs.append(spin(speeds[v]) + ([op("POP")] if rng.random() < 0.15 else [P(1000 + v)]))
+                    children.append([width])
+                programs.append(p_report_stack(9000 + si))
+                children.append([])
+            enc = encode_valid(children)
+            pred, pb = build_pred(enc, programs)
+            paddr = bytes([0xC0 + si]) * 32
+            contract = ADDR_A if si % 2 == 0 else ADDR_C
+            sols.append((contract, paddr, [], []))
+            preds.append((contract, paddr, pred))
+            pbytes += pb
+        out.append(check_case("twopass", rng.random() < 0.5, sols, preds, pbytes, []))
+    return out
+
+
+def c02_vm_cases(rng, tier):
+    """Compute ops whose children finish in very different times, stop at different pcs, or fail"""
+    out = []
+    ents = V.std_entries()
+    bodies = []
+    for b in (2, 3, 4, 8):
+        slow_first = [op("DUP"), P(b), op("SUB"), P(-1), op("MUL"), P(2500), op("MUL"), P(1), op("REP"), P(0), op("POP"), op("REPE")]   # (b - i) * 2500 iterations
+        # even children halt early (smaller final pc), odd ones run on to ComputeEnd
+        bodies.append((b, slow_first + [op("DUP"), P(2), op("MOD"), P(0), op("EQ"), op("HLTIF"), P(1), op("ALOC"), op("STO"), op("COME")]))
+        # every child leaves `index + 1` words of memory: their order in the parent's memory
+        bodies.append((b, slow_first + [op("DUP"), P(1), op("ADD"), op("ALOC"), op("STO"), op("COME")]))
+        # child 0 (slowest) and the last child (fastest) fail
+        bodies.append((b, slow_first + [op("DUP"), P(0), op("EQ"), op("PNCIF"), op("DUP"), P(b - 1), op("EQ"), op("PNCIF"), op("COME")]))
+        # children end at different pcs through a jump
+        bodies.append((b, slow_first + [op("DUP"), P(1), op("LT"), P(3), op("SWAP"), op("JMPIF"), P(1), op("ALOC"), op("POP"), op("COME"), P(2), op("ALOC"), op("COME")]))
+    for b, body in bodies:
+        for after in ([], [P(5), op("POP")], [P(7), P(1), op("ALOC"), op("STO")]):
+            out.append(V.case([P(b), op("COM")] + body + after, stack=[11, 12], mem=[70, 71], sols=V.RICH_SOLS, entries=ents, limit=10000000))
+    return out
+
+
+def c02_cases(rng, tier):
+    sizes = [1, 2, 5, 16] if tier == "quick" else list(range(1, 17))
+    reps = 2 if tier == "quick" else 4
+    pre = f"o_pool {len(sizes)} " + " ".join(map(str, sizes)) + f" {reps} "
+    cases = c02_check_cases(rng, tier) + c02_vm_cases(rng, tier)
+    # inputs of C01 / C03 / C10 as well
+    c1, _ = c01_cases(rng, "quick")
+    c3, _ = c03_cases(rng, "quick")
+    c10, _ = V.c10_cases(rng, "quick")
+    extra = rng.sample(c1, min(len(c1), 40 if tier == "quick" else 300)) + rng.sample(c3, min(len(c3), 30 if tier == "quick" else 200)) + \
+        rng.sample(c10, min(len(c10), 40 if tier == "quick" else 300))
+    cases += extra
+    return cases, [pre + c for c in cases]
